@@ -2083,6 +2083,10 @@ def run(ctx):
             try:
                 run_witness(ctx, f.get('witness', {}), tmp)
             except Exception as e:
+                if ctx.searching and 'does not compile on this tree' in str(e):
+                    # the Model file of this witness' wire is left out of the driver because a translator item / proof is
+                    # already reported as broken: not a failing input (was a false alarm on benign refactors C08-1, C08-2)
+                    continue
                 ctx.disagree('witness-error:%s' % f.get('id'), f.get('witness'), repr(e), None, 'witness could not be run', kind='tie')
         if not ctx.model_ok:
             search_without_model(ctx, tmp)
